@@ -238,8 +238,30 @@ pub fn worker_main(p: &dyn Property, tier: Tier, lo: u64, hi: u64, idx_path: &st
 
 // ---------------------------------------------------------------- parent side
 
+/// CPU seconds (user + system) a process has used so far. Watchdogs count CPU time, not
+/// wall time: on a loaded machine a healthy worker may not be scheduled for a long while.
+pub fn proc_cpu_secs(pid: u32) -> Option<f64> {
+    let stat = std::fs::read_to_string(format!("/proc/{pid}/stat")).ok()?;
+    let rest = &stat[stat.rfind(')')? + 1..];
+    let f: Vec<&str> = rest.split_whitespace().collect();
+    let ticks = f.get(11)?.parse::<u64>().ok()? + f.get(12)?.parse::<u64>().ok()?;
+    let hz = unsafe { libc::sysconf(libc::_SC_CLK_TCK) };
+    Some(ticks as f64 / if hz > 0 { hz as f64 } else { 100.0 })
+}
+
+/// CPU seconds used by the calling thread (time envelopes are CPU time, never wall time)
+pub fn thread_cpu_secs() -> f64 {
+    let mut ts = libc::timespec { tv_sec: 0, tv_nsec: 0 };
+    unsafe { libc::clock_gettime(libc::CLOCK_THREAD_CPUTIME_ID, &mut ts) };
+    ts.tv_sec as f64 + ts.tv_nsec as f64 * 1e-9
+}
+
+/// a process that used no CPU at all for this many times its CPU allowance is blocked
+pub const WALL_FACTOR: u32 = 15;
+
 struct Slot {
     child: Child,
+    cpu_at_change: f64,
     lo: u64,
     hi: u64,
     idx_path: PathBuf,
@@ -324,6 +346,7 @@ fn spawn_worker(
         idx_path,
         last_idx: lo,
         last_change: Instant::now(),
+        cpu_at_change: 0.0,
         reader: Some(reader),
     }
 }
@@ -448,10 +471,12 @@ fn run_cases_profile(
                 }
                 Ok(None) => {
                     let idx = read_idx(&slot.idx_path).unwrap_or(slot.last_idx);
+                    let cpu = proc_cpu_secs(slot.child.id()).unwrap_or(slot.cpu_at_change);
                     if idx != slot.last_idx {
                         slot.last_idx = idx;
                         slot.last_change = Instant::now();
-                    } else if slot.last_change.elapsed() > hang {
+                        slot.cpu_at_change = cpu;
+                    } else if cpu - slot.cpu_at_change > hang.as_secs_f64() || slot.last_change.elapsed() > hang * WALL_FACTOR {
                         let _ = slot.child.kill();
                         let _ = slot.child.wait();
                         let _ = slot.reader.take().map(|r| r.join());
